@@ -60,6 +60,9 @@ type cfgT struct {
 	stratum  int // 0 sequential fault-free, 1 sequential with faults, 2 concurrent batches (fault-free)
 	maxRes   int
 	perIP    int
+	perASN   int
+	v6       bool
+	pool     []string
 	maxCirc  int
 	ttl      time.Duration
 	limited  bool
@@ -79,7 +82,11 @@ type cfgT struct {
 	ops      []opT
 }
 
-var ipPool = []string{"1.2.3.4", "1.2.3.5", "6.7.8.9"}
+var ipPool4 = []string{"1.2.3.4", "1.2.3.5", "6.7.8.9"}
+
+// with IPv6 sources the per-ASN cap applies (the relay looks up the AS of IPv6 addresses only): two
+// addresses of one AS (Google), one of another (Facebook) and one IPv4 address
+var ipPool6 = []string{"2001:4860:4860::8888", "1.2.3.4", "2001:4860:4860::8844", "2a03:2880:f003:c07:face:b00c:0:2"}
 
 func (c *cfgT) nAll() int {
 	if c.withX {
@@ -100,8 +107,8 @@ func (c *cfgT) String() string {
 	if c.limited {
 		lim = fmt.Sprintf("limit(data=%d,dur=%v)", c.limData, c.limDur)
 	}
-	s := fmt.Sprintf("sec=%s link=%d stratum=%d maxRes=%d perIP=%d maxCirc=%d ttl=%v %s buf=%d acl(rsv=%d,conn=%d>%d) clients=", c.secu, c.mode, c.stratum,
-		c.maxRes, c.perIP, c.maxCirc, c.ttl, lim, c.bufSize, c.denyRsv, c.denySrc, c.denyDst)
+	s := fmt.Sprintf("sec=%s link=%d stratum=%d maxRes=%d perIP=%d perASN=%d maxCirc=%d ttl=%v %s buf=%d acl(rsv=%d,conn=%d>%d) clients=", c.secu, c.mode, c.stratum,
+		c.maxRes, c.perIP, c.perASN, c.maxCirc, c.ttl, lim, c.bufSize, c.denyRsv, c.denySrc, c.denyDst)
 	for i := 0; i < c.nCl; i++ {
 		k := "raw"
 		if c.realStop[i] {
@@ -122,6 +129,11 @@ func drawCfg(g simrt.Gen) *cfgT {
 	c.stratum = g.Weighted(4, 4, 3)
 	c.maxRes = 1 + g.Int(4)
 	c.perIP = 1 + g.Int(2)
+	c.v6 = g.Chance(1, 3)
+	c.pool, c.perASN = ipPool4, 1000
+	if c.v6 {
+		c.pool, c.perASN = ipPool6, 1+g.Int(2)
+	}
 	c.maxCirc = 1 + g.Int(2)
 	c.ttl = []time.Duration{60 * time.Second, 45 * time.Second, 90 * time.Second}[g.Int(3)]
 	c.limited = !g.Chance(1, 4)
@@ -142,9 +154,9 @@ func drawCfg(g simrt.Gen) *cfgT {
 		c.denyDst = (c.denySrc + 1 + g.Int(c.nCl-1)) % c.nCl
 	}
 	for i := 0; i < c.nCl; i++ {
-		h := g.Int(len(ipPool))
-		c.home = append(c.home, ipPool[h])
-		c.alt = append(c.alt, ipPool[(h+1+g.Int(len(ipPool)-1))%len(ipPool)])
+		h := g.Int(len(c.pool))
+		c.home = append(c.home, c.pool[h])
+		c.alt = append(c.alt, c.pool[(h+1+g.Int(len(c.pool)-1))%len(c.pool)])
 		c.realStop = append(c.realStop, g.Chance(1, 3))
 	}
 	c.withX = g.Chance(1, 4)
